@@ -4,7 +4,7 @@ from . import convlib as L
 
 ID = "C04"
 CHECKER = "chk_conv"
-THEOREMS = ["C04_pointwise", "C04_defining_formulas", "C04_roundtrip", "C04_two_step_paths", "C04_value_at_r0"]
+THEOREMS = ['C04_pointwise', 'C04_defining_formulas', 'C04_roundtrip', 'C04_two_step_paths', 'C04_value_at_r0', 'C04_gconv', 'C04_gconv_sharp', 'C04_gconv_needs_rho']
 RULE = B.RULE.replace("all 12 ordered pairs", "all 6 ordered pairs of g, G, GK").replace(", bcoh of either sign", ", rho > 0 and bcoh > 0")
 
 
